@@ -1274,8 +1274,10 @@ def closure_of_operand(F, body, op, depth=0):
     cp = canon_place(body, pl)
     if cp["l"] == 1 and body.kind in NESTED_KINDS and cp["p"]:
         # a captured closure: continue in the creating body
-        e = cp["p"][0]
-        if isinstance(e, dict) and "f" in e and e["o"].startswith("{upvar}") and all(x == "*" for x in cp["p"][1:]):
+        e, rest = cp["p"][0], cp["p"][1:]
+        if e == "*" and rest:
+            e, rest = rest[0], rest[1:]     # `Fn` / `FnMut` closures receive `&self` / `&mut self`
+        if isinstance(e, dict) and "f" in e and e["o"].startswith("{upvar}") and all(x == "*" for x in rest):
             parent, ups = closure_upvar_operands(F, body)
             if parent is not None and e["f"] in ups:
                 return closure_of_operand(F, parent, ups[e["f"]], depth + 1)
